@@ -55,8 +55,23 @@ def chrom_bins(c, widths):
     return out
 
 
+# chromosome names by id: deliberately NOT in lexicographic or natural order, and not all of the `chrN` shape, so that
+# a code path that sorts, filters or re-derives chromosome order from the names shows up in every correspondence
+_CHROMNAMES = ["chr2", "chr10", "chr1", "scaf_7", "chrX", "chrM", "chr3", "2L"]
+
+
 def chromname(c):
-    return f"c{c}"
+    return _CHROMNAMES[c] if 0 <= c < len(_CHROMNAMES) else f"c{c}"
+
+
+def chromid(name):
+    """inverse of chromname (raises ValueError on a name that is not one of ours)"""
+    name = name.decode() if isinstance(name, bytes) else str(name)
+    if name in _CHROMNAMES:
+        return _CHROMNAMES.index(name)
+    if name[:1] == "c" and name[1:].isdigit() and int(name[1:]) >= len(_CHROMNAMES):
+        return int(name[1:])
+    raise ValueError(f"not a generated chromosome name: {name!r}")
 
 
 def bins_df(bins, nchroms=None, categorical=True):
